@@ -13,8 +13,11 @@ Oracles, checked after every call:
           recorded steps - except that the single round following a terminal event may see a growth >= 1 (the landing
           sub-steps share it; 0 when the event coincides with the sample already recorded) and then t[-1] is the event time;
   a callback that assigns dt = d_k: an explicit fixed-step method takes |t_k+1 - t_k| == |d_k| next (or the clamped
-          final step).
+          final step). Limiter-style callbacks (dt = dt, dt = min(dt, cap)) run on every family: whatever the last
+          round assigned is what system.dt holds when the call returns, terminal event or not.
 """
+import math
+
 import numpy as np
 from hypothesis import strategies as st
 
@@ -52,7 +55,7 @@ def _case(draw):
     return dict(part="counters", method=method, dtype="float64", prob=prob, y0=draw(PR.state(prob["shape"])), t0=t0, tf=t0 + direction * L,
                 dt=L * frac, rtol=draw(st.sampled_from([1e-4, 1e-7])), atol=1e-7, dense=draw(st.booleans()), user_jac=draw(st.booleans()),
                 events=events, fault_at=draw(st.sampled_from([None, None, None, 3, 7, 12, 25])), reset_after=draw(st.booleans()),
-                set_dt=draw(st.sampled_from([None, None, 0.5, 0.25])))
+                set_dt=draw(st.sampled_from([None, None, 0.5, 0.25, "keep", "cap"])))
 
 
 def parts(tier):
@@ -131,6 +134,7 @@ def check(case):
         order = []
         cb_viol = []
         dt_assigned = {}
+        last_assigned = [None]
 
         def make_cb(i):
             def cb(system):
@@ -142,10 +146,16 @@ def check(case):
                         cb_viol.append("inside a callback len(system)={} but len(t)={} len(y)={}".format(n, len(system.t), len(system.y)))
                     rounds.append((n, tl))
                     ev_seen.append(cnt.get("event_calls", 0))
-                    if case["set_dt"] is not None and fam in ("explicit_fixed", "splitting"):
+                    if case["set_dt"] in ("keep", "cap"):
+                        # limiter / clip style callbacks: the value assigned may equal the current one
+                        cur = float(system.dt)
+                        system.dt = cur if case["set_dt"] == "keep" else math.copysign(min(abs(cur), 0.4 * abs(case["dt"])), cur)
+                        last_assigned[0] = abs(float(system.dt))
+                    elif case["set_dt"] is not None and fam in ("explicit_fixed", "splitting"):
                         d = case["dt"] * case["set_dt"] * (1 + (len(rounds) % 3))
                         system.dt = d
                         dt_assigned[n] = abs(float(system.dt))
+                        last_assigned[0] = abs(float(system.dt))
             return cb
         cbs = [make_cb(0), make_cb(1), make_cb(2)]
         phases = ["first"]
@@ -166,6 +176,7 @@ def check(case):
                     viols.append(V("nfev_reset", "nfev = {} after reset()".format(a.nfev), sig, **attrs))
             n0 = len(a)
             rounds.clear(); order.clear(); dt_assigned.clear(); ev_seen.clear()
+            last_assigned[0] = None
             ev_base = cnt.get("event_calls", 0)
             status_before = a.integration_status
             err = traj.run_integrate(a, None, step_limit=len(a) + (300 if fam in ("implicit_fixed", "implicit_embedded", "richardson") else 2000), events=evs or None, callbacks=cbs, injected=(Boom,))
@@ -217,6 +228,11 @@ def check(case):
                 viols.append(V("callback_count", "{}: {} recorded samples but the last callback round saw {}".format(method, len(a), rounds[-1][0]), sig, **attrs))
             if not failed and not rounds and len(a) > n0:
                 viols.append(V("callback_count", "{}: {} steps recorded but no callback ran".format(method, len(a) - n0), sig, **attrs))
+            # ---- the step size the last callback round assigned is what the system holds when the call returns (nothing
+            #      runs after the callbacks of the last step - terminal event or not - that may replace it)
+            if not failed and last_assigned[0] is not None and abs(float(a.dt)) != last_assigned[0]:
+                viols.append(V("callback_dt_replaced", "{}: the last callback round assigned |dt| = {!r} but after the call ({}) system.dt = {!r}".format(
+                    method, last_assigned[0], "stopped on a terminal event" if stopped else "reached its target", float(a.dt)), sig, stopped=bool(stopped), **attrs))
             # ---- dt assigned by a callback is the next step (explicit fixed-step methods)
             if dt_assigned and not evs:
                 eps = float(np.finfo(np.float64).eps)
